@@ -33,8 +33,8 @@ RULE = (
     "interpreter outcome. Non-trivial = histories of length >= 2 and schedules with a real preemption (distinct)."
 )
 BOUND = {
-    "quick": "all histories of length <= 2 over 25 calls (plus repeats a,a,a); the all-pairs chain (1152 calls); fingerprint BFS depth 3 from each first call; all <=1-preemption schedules for 16 ordered pairs",
-    "thorough": "all histories of length <= 3 over 25 calls; the all-pairs chain; fingerprint BFS depth 5 from each first call (at most 4000 transitions / 600 s per root: roots that hit the cap are reported); all <=1-preemption schedules for all ordered pairs (a pair with more than 2500 schedules on an even grid, 600 s per pair: reported); 2 preemptions on 12 pairs",
+    "quick": "all histories of length <= 2 over 28 calls (plus repeats a,a,a); the all-pairs chain; fingerprint BFS depth 3 from each first call; all <=1-preemption schedules at call granularity for 16 ordered pairs; 2 pairs at line granularity on a grid of 250 points (reported as capped)",
+    "thorough": "all histories of length <= 3 over 25 calls; the all-pairs chain; fingerprint BFS depth 5 from each first call (at most 4000 transitions / 600 s per root: roots that hit the cap are reported); all <=1-preemption schedules for all ordered pairs (a pair with more than 2500 schedules on an even grid, 600 s per pair: reported); 2 preemptions on 12 pairs; 12 pairs at line granularity (grid of 2500 points)",
 }
 ASSUMPTIONS = [
     "threads are explored at 'call' granularity under the GIL; compiled (mypyc/Cython) builds and state inside the standard "
@@ -211,7 +211,12 @@ def _add_deep_inputs() -> None:
 DEEP_INFO: dict = {}
 
 
+TIER = "quick"
+
+
 def units(tier: str) -> list[tuple]:
+    global TIER
+    TIER = tier
     expected()  # computed once in the parent; forked workers inherit it
     n = len(POOL)
     us: list[tuple] = []
@@ -236,6 +241,11 @@ def units(tier: str) -> list[tuple]:
     if tier == "thorough":
         for a, b in [(3, 3), (3, 14), (14, 3), (4, 8), (8, 10), (10, 10), (5, 16), (16, 0), (14, 15), (7, 15), (8, 15), (6, 3)]:
             us.append(("sched", a, b, 2, "capped"))
+    # line granularity (every line of the library's code is a scheduling point, ~4 x as many as calls): a check-then-act
+    # inside one function is invisible at call granularity.  Pairs that share the string / f-string / macro machinery;
+    # one preemption, on an even grid of at most SCHED_CAP points (reported as capped)
+    for a, b in ([(9, 10), (3, 4)] if tier == "quick" else [(9, 10), (10, 9), (11, 11), (11, 19), (3, 4), (4, 3), (5, 16), (8, 7), (17, 17), (22, 9), (18, 20), (0, 0)]):
+        us.append(("sched", a, b, 1, "capped", "line"))
     return us
 
 
@@ -253,7 +263,7 @@ def cases(unit: tuple) -> Iterator[dict]:
     elif k == "chain":
         yield {"chain": True}
     else:
-        yield {"sched": [unit[1], unit[2]], "preemptions": unit[3], **({unit[4]: True} if len(unit) > 4 else {})}
+        yield {"sched": [unit[1], unit[2]], "preemptions": unit[3], **({unit[4]: True} if len(unit) > 4 else {}), **({"gran": unit[5]} if len(unit) > 5 else {})}
 
 
 def run_unit(unit: tuple, acc: Any) -> None:
@@ -346,7 +356,8 @@ def bfs(depth: int, acc: Any, case: dict) -> None:
     acc.notes["bfs_roots_emptied"] = acc.notes.get("bfs_roots_emptied", 0) + (0 if frontier or capped else 1)
 
 
-SCHED_CAP = 2500  # schedules per pair of threads
+SCHED_CAP = 2500  # schedules per pair of threads (thorough tier)
+SCHED_CAP_QUICK = 250
 SCHED_SECONDS = 600.0  # and wall time per pair
 BFS_CAP = 4000  # transitions per root
 BFS_SECONDS = 600.0  # and wall time per root (the case deadline is 900 s)
@@ -405,15 +416,18 @@ class _Sched:
             self.b_go.wait(60)
 
 
-def run_schedule(a: int, b: int, k: int, m: int | None) -> tuple[list, list, dict]:
+def run_schedule(a: int, b: int, k: int, m: int | None, gran: str = "call") -> tuple[list, list, dict]:
     sched = _Sched(k, m)
     res: dict[str, Any] = {}
     root = os.path.join(env.REPO, "peg_parser")
+    lines = gran == "line"
 
     def tracer(who: str):
         def trace(frame, event, arg):  # noqa: ANN001
-            if event == "call" and frame.f_code.co_filename.startswith(root):
-                sched.point(who)
+            if frame.f_code.co_filename.startswith(root):
+                if event == "call" or (lines and event == "line"):
+                    sched.point(who)
+                return trace if lines else None  # line granularity: every line of the library's code is a scheduling point
             return None
 
         return trace
@@ -445,8 +459,9 @@ def run_schedule(a: int, b: int, k: int, m: int | None) -> tuple[list, list, dic
 
 def explore_schedules(a: int, b: int, preemptions: int, acc: Any, case: dict) -> None:
     exp = expected()
+    gran = case.get("gran", "call")
     # points of A alone
-    ra, rb, info = run_schedule(a, b, 10**9, None)
+    ra, rb, info = run_schedule(a, b, 10**9, None, gran)
     acc.ran(2)
     na, nb = info["pointsA"], info["pointsB"]
     if [ra, rb] != [exp[a], exp[b]]:
@@ -461,16 +476,17 @@ def explore_schedules(a: int, b: int, preemptions: int, acc: Any, case: dict) ->
         ks = sorted(set(range(1, na + 1, max(1, na // 8))) | set(range(1, min(na, 4) + 1)))
         ms = [None] + list(range(1, nb + 1, max(1, nb // 10)))
     t0 = time.time()
-    if case.get("capped") and na * len(ms) > SCHED_CAP:
+    cap = SCHED_CAP_QUICK if case.get("gran") == "line" and TIER == "quick" else SCHED_CAP
+    if case.get("capped") and na * len(ms) > cap:
         # a pair with more schedules than the cap is explored on an even grid of A's points (and reported as capped)
-        ks = range(1, na + 1, -(-na * len(ms) // SCHED_CAP))
+        ks = range(1, na + 1, -(-na * len(ms) // cap))
         acc.notes["sched_pairs_capped"] = acc.notes.get("sched_pairs_capped", 0) + 1
     for k in ks:
         if case.get("capped") and time.time() - t0 > SCHED_SECONDS:
             acc.notes["sched_pairs_cut_short"] = acc.notes.get("sched_pairs_cut_short", 0) + 1
             break
         for m in ms:
-            ra, rb, info = run_schedule(a, b, k, m)
+            ra, rb, info = run_schedule(a, b, k, m, gran)
             acc.ran(2)
             acc.edge()
             if info["preempted"]:
@@ -479,7 +495,7 @@ def explore_schedules(a: int, b: int, preemptions: int, acc: Any, case: dict) ->
             if ra != exp[a] or rb != exp[b]:
                 c = dict(case, k=k, m=m)
                 # replay the failing schedule once more: it must fail identically before it is reported
-                ra2, rb2, _ = run_schedule(a, b, k, m)
+                ra2, rb2, _ = run_schedule(a, b, k, m, gran)
                 if (ra2, rb2) != (ra, rb):
                     acc.violation("SCHEDULE not reproducible under the controlled scheduler", c, {"first": [_short(ra), _short(rb)], "second": [_short(ra2), _short(rb2)]})
                     return
@@ -546,7 +562,7 @@ def _check_in_child(case: dict, acc: Any) -> None:
         a, b = case["sched"]
         if "k" in case and case["k"] is not None:
             exp = expected()
-            ra, rb, _ = run_schedule(a, b, case["k"], case.get("m"))
+            ra, rb, _ = run_schedule(a, b, case["k"], case.get("m"), case.get("gran", "call"))
             if ra != exp[a] or rb != exp[b]:
                 which = "A" if ra != exp[a] else "B"
                 got = ra if which == "A" else rb
